@@ -327,6 +327,7 @@ static void do_auth (char **toks, int ntok)
           for (i = 0; i < (int) pl; i++) sprintf (linebuf + 5 + 2 * i, "%02x", plain[i]);
           memcpy (linebuf + 5 + 2 * pl, "\r\n", 2);
           putchar ('@'); puthex ((unsigned char *) linebuf, (int) ll); putchar (' ');
+          if (getenv ("VERIF_FLUSH") != NULL) fflush (stdout);
           ol = out_len (auth);
           feed (auth, (unsigned char *) linebuf, (int) ll);
           rc = work_and_print (auth, ol);
